@@ -16,6 +16,7 @@ func checkC13(c *Ctx) {
 	c.Decided = "content addressing: every write into the hash-indexed table stores a block under its own hash, or under the very hash that was requested from the network layer, and every production network-layer fetch hands back only a block whose hash was compared with the request; " +
 		"Store returns before any write when the hash is present; lock discipline of the store; when pruning, the set of views exempted from abandonment is derived only by parent-hash links (never from the lossy per-view index), " +
 		"each reported view is removed from the per-view index before the next is examined, and the prune height advances; the ancestry query ends with a hash equality and descends by parent hash while the view is higher."
+	c.Decided += " Every presence test of the store in Get decides Get's answer; Committer.commit prunes only after the chain up to the block was committed."
 	c.NotDec = "exactness of the ancestry query on arbitrary forests as a functional property of its loop (only its comparison polarity, step and final hash equality are decided); equivocating blocks beyond the one tracked per view are never reported as abandoned (by design of the index)."
 	c.Expect("C13.1", 3)
 
